@@ -153,7 +153,7 @@ class EHistCheck(Check):
         viol = []
         detail = {"files": files, "res": res.brief(), "expected_lines": exp[-30:], "history": [repr(o) for o in hist]}
         op = hist[-1] if hist else None
-        opname = op[0] if isinstance(op, tuple) else str(op)
+        opname = op[0] if isinstance(op, tuple) else (m.op_name(tpl, op) if hasattr(m, "op_name") and op is not None else str(op))
 
         def bad(kind, what):
             viol.append({"sig": {"kind": kind, "template": str(tpl), "op": opname, "opdetail": repr(op)},
